@@ -658,7 +658,7 @@ func rulesC14(c *Ctx) {
 		scenario("verify:expired-beyond-skew", anyOf(append(okBase, callIs("IsZero", "", triFalse), callIs("Before", "", triTrue))...)(v), []int64{401}, "expiration + skew is before now (for every value of AllowMissingExpiration)")
 		// if-direction: when everything checks out the request is admitted, whatever the options pointer is
 		admits("verify:admits-valid-unexpired", anyOf(append(okBase, callIs("IsZero", "", triFalse), callIs("Before", "", triFalse))...)(v), "well-formed Bearer credential, verifier accepts, scopes contained, expiration + skew not before now")
-		admits("verify:admits-missing-expiration-when-allowed", anyOf(append(okBase, callIs("IsZero", "", triTrue), fieldIs("AllowMissingExpiration", triTrue))...)(v), "as above without an expiration, AllowMissingExpiration set")
+		admits("verify:admits-missing-expiration-when-allowed", anyOf(append(okBase, callIs("IsZero", "", triTrue), fieldIs("AllowMissingExpiration", triTrue), nilObj(optsParam, triFalse))...)(v), "as above without an expiration, options given with AllowMissingExpiration set")
 		// the expiry comparison has the documented normal form
 		now := c.Std("time", "", "Now")
 		okForm := false
@@ -668,8 +668,34 @@ func rulesC14(c *Ctx) {
 					recv := ast.Unparen(call.Fun).(*ast.SelectorExpr).X
 					if add, ok := ast.Unparen(recv).(*ast.CallExpr); ok && v.Callee(add) != nil && v.Callee(add).Name() == "Add" && len(add.Args) == 1 {
 						s, isS := ast.Unparen(add.Args[0]).(*ast.SelectorExpr)
+						if id, isID := ast.Unparen(add.Args[0]).(*ast.Ident); isID && !isS {
+							// a local that is zero unless it was given the option's value
+							if lv, isV := v.ObjOf(id).(*types.Var); isV && !lv.IsField() && !v.addressTaken(lv) {
+								nSel, nOther := 0, 0
+								for _, w := range Writes(v.Body, true) {
+									if v.ObjOf(w.LHS) != types.Object(lv) {
+										continue
+									}
+									if w.RHS == nil && w.Tok == token.DEFINE {
+										continue // var skew time.Duration
+									}
+									if z, isZ := v.ConstInt(w.RHS); w.RHS != nil && isZ && z == 0 {
+										continue
+									}
+									if ws, ok := ast.Unparen(w.RHS).(*ast.SelectorExpr); w.RHS != nil && ok && ws.Sel.Name == "ClockSkew" {
+										s, isS = ws, true
+										nSel++
+										continue
+									}
+									nOther++
+								}
+								if nOther > 0 || nSel != 1 {
+									isS = false
+								}
+							}
+						}
 						base, isB := ast.Unparen(add.Fun).(*ast.SelectorExpr)
-						if isS && s.Sel.Name == "ClockSkew" && isB && func() bool { nm, on := v.SelectorOn(base.X, tokVar); return on && nm == "Expiration" }() {
+						if isS && s.Sel.Name == "ClockSkew" && v.ObjOf(s.X) == types.Object(optsParam) && isB && func() bool { nm, on := v.SelectorOn(base.X, tokVar); return on && nm == "Expiration" }() {
 							okForm = true
 						}
 					}
